@@ -249,9 +249,12 @@ func runPlan(t *testing.T, p *Plan, c *checker) {
 					c.probes["request-dump>1MiB-complete"]++
 				}
 				rec := httptest.NewRecorder()
-				req := httptest.NewRequest(st.Method, "/debug?"+st.Query, nil)
-				if st.Gzip {
-					req.Header.Set("Accept-Encoding", "gzip")
+				req := mkReq(st)
+				if st.Hdr != "" {
+					c.probes["request-with-header"]++
+				}
+				if st.ViaForm {
+					c.probes["request-parameters-via-form"]++
 				}
 				func() {
 					defer func() {
@@ -309,7 +312,7 @@ func runPlan(t *testing.T, p *Plan, c *checker) {
 				pr := &pendingReq{st: st, done: make(chan struct{}), wantCount: pre + 1, haveReg: settled(), atStack: make(chan struct{}), goStack: make(chan struct{}),
 					w: &parkWriter{rec: httptest.NewRecorder(), park: st.Park, parked: make(chan struct{}), resume: make(chan struct{})}}
 				reqs = append(reqs, pr)
-				req := httptest.NewRequest(st.Method, "/debug?"+st.Query, nil)
+				req := mkReq(st)
 				if st.AtStack {
 					parkNext = pr
 				}
